@@ -460,11 +460,11 @@ def handle (keys history goDir goOutcomes goCwd : String) (opts : String := "") 
   let builds := procs.flatten
   let verdict :=
     if !goCwd.isEmpty then s!"fail:file-created-in-working-directory:{goCwd}"
-    else match gtoks.find? (fun t => !entryOk world t) with
-      | some t => s!"fail:advertised-entry-is-not-the-body-served-under-its-etag:{t}"
+    else match outcomesVerdict noetag builds outs sim.outs with
+      | some w => "fail:" ++ w
       | none =>
-        match outcomesVerdict noetag builds outs sim.outs with
-        | some w => "fail:" ++ w
+        match gtoks.find? (fun t => !entryOk world t) with
+        | some t => s!"fail:advertised-entry-is-not-the-body-served-under-its-etag:{t}"
         | none => "pass"
   -- (a build over fewer repositories than configured has nothing to do with the key directories of F19d)
   let cls := if builds.any (fun b => schedDependent world b || sameEtagPair world b) && !verdict.startsWith "fail:repos:" then "F19d" else "unlisted"
